@@ -265,8 +265,14 @@ def _run(case, bump, counters, tmp):
     target = case["target"]
     try:
         before, after, returned, fdiffs = apply_once(case, filt, fonts, target, bump)
-    except Exception:  # noqa: BLE001
+    except Exception as e:  # noqa: BLE001
         tb = traceback.format_exc()
+        if name == "RemoveOverlapsFilter" and type(e).__name__ in (
+                "PathOpsError", "BooleanOperationsError", "BooleanGlyphError", "UnsupportedContourError"):
+            # the boolean-operations backend (skia-pathops / booleanOperations) gave up on the
+            # generated geometry; the property says nothing about that -> not judged
+            return {"status": "inconclusive", "counters": {"overlap_backend_rejected": 1},
+                    "note": tb[-600:]}
         return {"status": "violated", "counters": counters, "violations": [
             {"mech": "filter_exception", "detail": {"filter": name, "trace": tb[-2500:]}}]}
     bump("evaluated_" + name)
